@@ -85,7 +85,8 @@ let handle_parsemove line args obs =
         | Some m -> Printf.sprintf "OK %d %d %d" (int_of_n m.mfrom) (int_of_n m.mto) (int_of_n m.mpromo)
         | None -> "ERR") in
     bump "parsemove";
-    if m <> String.trim obs then report_mismatch line m
+    if String.trim obs = "CRASH" then report_spec ~key:"prop=C19" line "ParseMove crashed"
+    else if m <> String.trim obs then report_mismatch line m
   | _ -> failwith "bad parsemove"
 
 let handle_parsesq line args obs =
@@ -93,7 +94,8 @@ let handle_parsesq line args obs =
   | [ctok] ->
     let m = (match parse_square_str (str_of_codes ctok) with Some s -> Printf.sprintf "OK %d" (int_of_n s) | None -> "ERR") in
     bump "parsesq";
-    if m <> String.trim obs then report_mismatch line m
+    if String.trim obs = "CRASH" then report_spec ~key:"prop=C19" line "ParseSquare crashed"
+    else if m <> String.trim obs then report_mismatch line m
   | _ -> failwith "bad parsesq"
 
 let empty_engine () : engine =
@@ -110,7 +112,8 @@ let handle_engmove line args obs =
     let (e1, ok) = eng_move zt e0 ms in
     let m = if ok then "ACC " ^ codes_of_str (eng_position e1) else "REJ 1" in
     let o = String.trim obs in
-    if m <> o then report_mismatch line m;
+    if o = "CRASH" then report_spec ~key:"prop=C19" line "Engine.Move crashed"
+    else if m <> o then report_mismatch line m;
     (match gstate_of_fen (str_of_codes stok) with
      | Some g when (match decode (str_of_codes stok) with Ok (((p, t), _), _) -> wf_b p t | _ -> false) ->
        let denotes = (smove_of_str g ms <> None) in
